@@ -1,6 +1,7 @@
 ------------------------- MODULE AuthStrategy_Trace -------------------------
-(* code -> spec for C44.  One trace = one call of the real                      *)
-(* AuthStrategy.authenticate() on a strategy whose get_sources() yields stubs:   *)
+(* code -> spec for C44.  One trace = the successive calls (T.calls, mostly one)   *)
+(* of the real AuthStrategy.authenticate() on ONE strategy object whose           *)
+(* get_sources() yields that call's stubs.  Per call:                             *)
 (*   prog   = outcome kind of each stub (a kind of returned value, see Returns, or  *)
 (*            an exception class name)                                              *)
 (*   events = [src |-> k] for every stub.authenticate() entered, in order         *)
@@ -9,6 +10,9 @@
 (*             look-ups of the source / returned object / exception instance;     *)
 (*             kind = "ret" only if the entry holds the very object the source     *)
 (*             returned, unchanged)]                                               *)
+(*   earlier_changed = a result handed out by an earlier call of the trace no       *)
+(*            longer has the entries it had then (driver's comparison, derived)     *)
+(* A verdict element is <<clause, number of the call>>.                             *)
 (* The trace spec replays the recorded calls on the design spec's variables and   *)
 (* evaluates the design spec's clause operators; it is total (never blocks).      *)
 EXTENDS AuthStrategy, Json, IOUtils, TLCExt
@@ -16,35 +20,48 @@ Batch == JsonDeserialize(IOEnv.TRACE_FILE)
 VARIABLES tid, l, bad
 tvars == <<tid, l, bad, vars>>
 T == Batch[tid]
-NEv == Len(T.events)
+NC == Len(T.calls)
+R == T.calls[call]          \* the current call: [prog, events, final, earlier_changed]
+NEv == Len(R.events)
+Tag(S) == {<<c, call>> : c \in S}
 
 TInit == /\ tid \in 1..Len(Batch) /\ l = 1 /\ bad = {}
-         /\ prog = T.prog
+         /\ prog = T.calls[1].prog
          /\ pc = "next" /\ i = 0 /\ succeeded = FALSE
          /\ calls = <<>> /\ result = <<>> /\ status = "running"
+         /\ call = 1 /\ prev = <<>> /\ prevlen = 0
 
 \* the code entered source e.src: the spec's NextSource;Attempt pair, taken with the recorded index
-TCall == /\ l <= NEv
-         /\ LET s == T.events[l].src IN
+TCall == /\ pc # "done" /\ l <= NEv
+         /\ LET s == R.events[l].src IN
               /\ calls' = Append(calls, s)
               /\ i' = s
               /\ succeeded' = (s \in 1..Len(prog) /\ Succeeds(prog[s]))
-              /\ bad' = bad \cup CallClauses(prog, calls, s)
+              /\ bad' = bad \cup Tag(CallClauses(prog, calls, s))
          /\ pc' = "record" /\ l' = l + 1
-         /\ UNCHANGED <<tid, prog, result, status>>
+         /\ UNCHANGED <<tid, prog, result, status, call, prev, prevlen>>
 
-\* authenticate() ended: the spec's Finish, with the recorded status and AuthResult
-TFinal == /\ l = NEv + 1
-          /\ status' = T.final.status /\ result' = T.final.result
-          /\ bad' = bad \cup FinalClauses(prog, calls, T.final.status, T.final.result)
-                        \cup (IF T.final.status \in {"returned", "raised"}
-                                 /\ [calls |-> calls, status |-> T.final.status, result |-> T.final.result] # Expected(prog)
+\* authenticate() ended: the spec's Finish, with the recorded status and AuthResult (judged against THIS call's sources)
+TFinal == /\ pc # "done" /\ l = NEv + 1
+          /\ status' = R.final.status /\ result' = R.final.result
+          /\ bad' = bad \cup Tag(FinalClauses(prog, calls, R.final.status, R.final.result)
+                        \cup (IF R.final.status \in {"returned", "raised"}
+                                 /\ [calls |-> calls, status |-> R.final.status, result |-> R.final.result] # Expected(prog)
                               THEN {"C_differs_from_expected"} ELSE {})
+                        \cup (IF R.earlier_changed THEN {"C_earlier_result_changed"} ELSE {}))
           /\ pc' = "done" /\ l' = l + 1
-          /\ UNCHANGED <<tid, prog, i, succeeded, calls>>
+          /\ UNCHANGED <<tid, prog, i, succeeded, calls, call, prev, prevlen>>
 
-TNext == TCall \/ TFinal
+\* authenticate() is called again on the same strategy object: the spec's NextCall with the recorded sources
+TNextCall == /\ pc = "done" /\ call < NC
+             /\ prog' = T.calls[call + 1].prog
+             /\ pc' = "next" /\ i' = 0 /\ succeeded' = FALSE /\ calls' = <<>> /\ status' = "running" /\ result' = <<>>
+             /\ prev' = result /\ prevlen' = Len(result)
+             /\ call' = call + 1 /\ l' = 1
+             /\ UNCHANGED <<tid, bad>>
+
+TNext == TCall \/ TFinal \/ TNextCall
 TSpec == TInit /\ [][TNext]_tvars
-Report == l = NEv + 2 => /\ (bad # {} => PrintT(<<"VERDICT", tid, bad>>))
-                         /\ PrintT(<<"DONE", tid>>)
+Report == (pc = "done" /\ call = NC) => /\ (bad # {} => PrintT(<<"VERDICT", tid, bad>>))
+                                       /\ PrintT(<<"DONE", tid>>)
 =============================================================================
